@@ -265,9 +265,27 @@ pub fn walk_message(v6: bool, unreachable: bool, msg: &[u8]) -> Result<(usize, u
         if let Ok(ep) = ExtensionsPacket::new_view(&eb) {
             let _ = ep.header();
             let _ = ep.packet();
+            // independent walk (RFC 4884 section 7): objects follow the 4-octet header back to
+            // back; parsing stops at the first object whose length field is below 4 or runs past
+            // the octets that are left
+            let mut expect_starts: Vec<usize> = vec![];
+            {
+                let mut off = 4usize;
+                while off + 4 <= eb.len() {
+                    let l = usize::from(u16::from_be_bytes([eb[off], eb[off + 1]]));
+                    if l < 4 || l > eb.len() - off {
+                        break;
+                    }
+                    expect_starts.push(off);
+                    off += l;
+                }
+            }
+            let base = eb.as_ptr() as usize;
+            let mut got_starts: Vec<usize> = vec![];
             for ob in ep.objects() {
                 objects += 1;
                 vensure!(objects <= cap, "object-iterator-runaway", "object iterator yielded {objects} items over {} octets", eb.len());
+                got_starts.push((ob.as_ptr() as usize).wrapping_sub(base));
                 if let Ok(o) = trippy_packet::icmp_extension::extension_object::ExtensionObjectPacket::new_view(ob) {
                     let _ = (o.get_length(), o.get_class_num(), o.get_class_subtype(), o.packet().len());
                     let pl = o.payload();
@@ -287,6 +305,12 @@ pub fn walk_message(v6: bool, unreachable: bool, msg: &[u8]) -> Result<(usize, u
                     }
                 }
             }
+            vensure!(
+                got_starts == expect_starts,
+                "objects-beyond-wellformed-prefix",
+                "extension structure of {} octets: the object iterator yields objects at offsets {got_starts:?}, the well-formed prefix has objects at {expect_starts:?}",
+                eb.len()
+            );
         }
         // the conversion the tracer applies
         let _ = Extensions::try_from(eb.as_slice());
